@@ -151,6 +151,8 @@ pub enum Out {
     Err_(String),
     /// several named observations made by one call (e.g. value and residual state)
     Rec(Vec<(String, Out)>),
+    /// a list of small natural numbers (histograms)
+    Ints(Vec<u64>),
 }
 
 pub fn val<T: Bn>(x: T) -> Out {
@@ -349,6 +351,16 @@ impl Out {
                 s.push_str("{\"k\":\"err\",\"e\":");
                 jstr(s, e);
                 s.push('}');
+            }
+            Out::Ints(v) => {
+                s.push_str("{\"k\":\"ints\",\"v\":[");
+                for (i, x) in v.iter().enumerate() {
+                    if i > 0 {
+                        s.push(',');
+                    }
+                    let _ = write!(s, "{}", x);
+                }
+                s.push_str("]}");
             }
             Out::Rec(fs) => {
                 s.push_str("{\"k\":\"rec\"");
